@@ -104,6 +104,10 @@ func BoltRef(c Case, unitV2 bool) vref.BoltFrame {
 	}
 	f.Class = vref.Bytes(c.Class, c.Seed+1)
 	f.Headers = c.Hdr.KVs(false)
+	if c.Kind == KindForm {
+		// the header block is given slot by slot (non-canonical forms)
+		f.Headers, f.HeaderBlock = nil, FormBlock(c.Form)
+	}
 	if c.Kind == "byte" {
 		f.Content = []byte{byte(c.Val)}
 	} else {
@@ -124,11 +128,13 @@ func BoltBuild(unitV2 bool) func(c Case) (in, want []byte) {
 
 // BoltRefView is Adapter.RefView for bolt / boltv2.
 func BoltRefView(c Case, b []byte) (View, int, error) {
-	f, n, err := vref.ParseBolt(b)
+	// (the loose parser: a frame MOSN re-encodes is canonical, where both parsers
+	// agree; a received frame of the non-canonical alphabet may carry null strings)
+	f, n, err := vref.ParseBoltLoose(b)
 	if err != nil {
 		return View{}, n, err
 	}
-	v := View{HasClass: true, Class: string(f.Class), Headers: vref.SortedKVs(f.Headers), Body: f.Content,
+	v := View{HdrUnknown: f.NullKeys > 0, HasClass: true, Class: string(f.Class), Headers: vref.SortedKVs(f.Headers), Body: f.Content,
 		Fixed: map[string]uint64{"proto": uint64(f.Proto), "type": uint64(f.Type), "cmdcode": uint64(f.CmdCode), "ver2": uint64(f.Ver2),
 			"codec": uint64(f.Codec), "timeout": uint64(f.Timeout), "status": uint64(f.Status), "ver1": uint64(f.Ver1), "switch": uint64(f.Switch)}}
 	return v, n, nil
